@@ -736,7 +736,8 @@ def setup_cf_block_jacobi(lvl, f_iterations=DEFAULT_NITER, c_iterations=DEFAULT_
 
     if blocksize == 1:
         # Block Jacobi is equivalent to normal Jacobi
-        smoother = setup_cf_jacobi(lvl, iterations=iterations, omega=omega, withrho=withrho)
+        smoother = setup_cf_jacobi(lvl, f_iterations=f_iterations, c_iterations=c_iterations,
+                                   iterations=iterations, omega=omega, withrho=withrho)
         update_wrapper(smoother, relaxation.cf_block_jacobi)
         return smoother
 
@@ -779,7 +780,8 @@ def setup_fc_block_jacobi(lvl, f_iterations=DEFAULT_NITER, c_iterations=DEFAULT_
 
     if blocksize == 1:
         # Block Jacobi is equivalent to normal Jacobi
-        smoother = setup_fc_jacobi(lvl, iterations=iterations, omega=omega, withrho=withrho)
+        smoother = setup_fc_jacobi(lvl, f_iterations=f_iterations, c_iterations=c_iterations,
+                                   iterations=iterations, omega=omega, withrho=withrho)
         update_wrapper(smoother, relaxation.fc_block_jacobi)
         return smoother
 
